@@ -15,6 +15,11 @@ HEADER = "From Coq Require Import PrimFloat.\nFrom Verif Require Import Model.St
 VALUE_POOL = [0.0, 1.0, -1.0, 2.5, -2.5, 0.5, 3.0, 0.1, 1e-05, 1e16, 1e22, 123456.789, -0.0, 5e-324,
               1.7976931348623157e308, float("inf"), float("-inf"), float("nan"), 1 / 3, 100.0, 1e-4, 9999999999999998.0]
 
+# values of the parser / successor routes: every class of repr text (plain, exponent form with either sign, signed
+# zeros, inf, nan, integers beyond 2**53, subnormal, largest finite)
+ROUTE_VALUES = VALUE_POOL[:14] + [float("inf"), float("-inf"), float("nan"), 5e-05, 1e16, -1e16, 1.5e-07, 2.5e+20, 1e+16 + 2,
+                                  1.7976931348623157e308, -5e-324, 0.30000000000000004]
+
 # ---------------------------------------------------------------- fixed domain used by the parser / successor routes
 DOMAIN = """(define (domain dom14) (:requirements :typing :fluents :negative-preconditions)
 (:types a c - object b - a)
@@ -29,6 +34,19 @@ DOMAIN = """(define (domain dom14) (:requirements :typing :fluents :negative-pre
 PRED_SIGS = {"p": [("?x", "a")], "q": [("?x", "a"), ("?y", "a")], "z": [], "k": [("?u", "c")]}
 FUNC_SIGS = {"f": [("?x", "a")], "g": [("?x", "a"), ("?y", "a")], "h": []}
 ACTIONS = {"mv": 2, "setf": 1, "tog": 0}
+# a second domain for the process-level sequences: every name of the first, other arities, another type tree
+DOMAIN_B = """(define (domain dom14b) (:requirements :typing :fluents :negative-preconditions)
+(:types b c - object a - b)
+(:predicates (p ?x - a ?y - a) (q ?x - a) (z) (k ?u - c))
+(:functions (f ?x - a ?y - a) (g ?x - a) (h))
+(:action mv :parameters (?x - a ?y - a) :precondition (and (q ?x))
+  :effect (and (not (q ?x)) (q ?y) (p ?x ?y) (increase (f ?x ?y) 1) (decrease (h) 0.5)))
+(:action setf :parameters (?x - a) :precondition (and )
+  :effect (and (assign (g ?x) (+ (g ?x) 2.5)) (not (z))))
+(:action tog :parameters () :precondition (and ) :effect (and (z) (assign (h) 3)))
+)"""
+PRED_SIGS_B = {"p": [("?x", "a"), ("?y", "a")], "q": [("?x", "a")], "z": [], "k": [("?u", "c")]}
+FUNC_SIGS_B = {"f": [("?x", "a"), ("?y", "a")], "g": [("?x", "a")], "h": []}
 
 
 def fhex(v):
@@ -257,58 +275,189 @@ def problem_text(rng, objs, st):
     return "(define (problem prob) (:domain dom14) (:objects %s) (:init %s) (:goal (and)))" % (o, " ".join(items))
 
 
-def route_state(rng, objs, allow_repeats):
+def route_state(rng, objs, allow_repeats, pred_sigs=None, func_sigs=None):
+    pred_sigs = PRED_SIGS if pred_sigs is None else pred_sigs
+    func_sigs = FUNC_SIGS if func_sigs is None else func_sigs
     names_a = [n for n, t in objs if t in ("a", "b")]
     names_c = [n for n, t in objs if t == "c"]
     dens = rng.choice([0.0, 0.3, 0.6, 1.0])
     facts, fluents = [], []
-    for p, sig in PRED_SIGS.items():
+    for p, sig in pred_sigs.items():
         pools = [names_a if t == "a" else names_c for _, t in sig]
         for combo in itertools.product(*pools):
             if rng.random() < dens:
                 facts.append([p, list(combo)])
-    for f, sig in FUNC_SIGS.items():
+    for f, sig in func_sigs.items():
         pools = [names_a for _ in sig]
         for combo in itertools.product(*pools):
             if len(set(combo)) < len(combo) and not allow_repeats:
                 continue
             if rng.random() < max(dens, 0.3):
-                fluents.append([f, list(combo), fhex(rng.choice(VALUE_POOL[:14] + [float("inf")]))])
+                fluents.append([f, list(combo), fhex(rng.choice(ROUTE_VALUES))])
     return {"facts": facts, "fluents": fluents}
 
 
-def route_group(rng, allow_repeats=False):
-    objs = [("o%d" % i, rng.choice(["a", "b", "a"])) for i in range(rng.randint(1, 3))]
-    if rng.random() < 0.5:
-        objs.append(("u0", "c"))
-    st = route_state(rng, objs, allow_repeats)
-    ptxt = problem_text(rng, objs, st)
+def succ_want(st, action, args):
+    """the successor of the abstract state under one call of the fixed domain, effects applied whether or not the
+    precondition holds (the driver passes allow_inapplicable_actions=True); None when an effect reads a fluent the
+    state does not define (no a-priori truth then) or the call repeats an argument (D07 area)"""
+    if st is None or len(set(args)) < len(args) or has_repeat(st):
+        return None
+    facts = [list(x) for x in st["facts"]]
+    fl = {(f, tuple(a)): unhex(v) for f, a, v in st["fluents"]}
+    order = [(f, tuple(a)) for f, a, _ in st["fluents"]]
+
+    def drop(x):
+        while x in facts:
+            facts.remove(x)
+
+    def add(x):
+        if x not in facts:
+            facts.append(x)
+    if action == "mv":
+        x, y = args
+        if ("g", (x, y)) not in fl or ("h", ()) not in fl:
+            return None
+        drop(["p", [x]])
+        add(["p", [y]])
+        add(["q", [x, y]])
+        fl[("g", (x, y))] = fl[("g", (x, y))] + 1.0
+        fl[("h", ())] = fl[("h", ())] - 0.5
+    elif action == "setf":
+        (x,) = args
+        if ("f", (x,)) not in fl:
+            return None
+        fl[("f", (x,))] = fl[("f", (x,))] + 2.5
+        drop(["z", []])
+    elif action == "tog":
+        if ("h", ()) not in fl:
+            return None
+        add(["z", []])
+        fl[("h", ())] = 3.0
+    else:
+        return None
+    return {"facts": facts, "fluents": [[f, list(a), fhex(fl[(f, a)])] for f, a in order]}
+
+
+def route_descrs(rng, objs, st, ptxt, allow_repeats, base=0, calls=None):
+    """the abstract state st reached through every construction route; 'of' indices are offset by base"""
     descrs = [
         {"route": "problem", "domain": DOMAIN, "problem": ptxt, "want": st, "kind": "route:problem"},
         {"route": "trajectory", "domain": DOMAIN, "problem": ptxt, "text": render_state_text(rng, st), "want": st,
          "kind": "route:trajectory+objects"},
         {"route": "trajectory", "domain": DOMAIN, "problem": None, "text": render_state_text(rng, st, ":init"), "want": st,
          "kind": "route:trajectory-deduced"},
-        {"route": "copy", "of": 0, "want": st, "kind": "route:copy"},
-        {"route": "copy", "of": 2, "want": st, "kind": "route:copy"},
+        {"route": "copy", "of": base + 0, "want": st, "kind": "route:copy"},
+        {"route": "copy", "of": base + 2, "want": st, "kind": "route:copy"},
     ]
     if no_interleaved_repeat(st):
         descrs.append(dict(ctor_from_abstract(st, types=dict(objs)), want=st, kind="route:ctor"))
-    # successors: the same call applied to the parsed state and to its copy; another call for contrast
+    # successors: the same call applied to the parsed state, to its copy and to the trajectory parser's state
+    for name, args in (calls if calls is not None else route_calls(rng, objs)):
+        if not allow_repeats and len(set(args)) < len(args):
+            continue
+        w = succ_want(st, name, args)
+        for of, kind in ((0, "route:succ"), (3, "route:succ-of-copy"), (1, "route:succ-of-trajectory-state")):
+            descrs.append({"route": "succ", "of": base + of, "domain": DOMAIN, "problem": ptxt, "action": name, "args": args,
+                           "want": w, "kind": kind})
+    return descrs
+
+
+def route_calls(rng, objs, k=2):
     names_a = [n for n, t in objs if t in ("a", "b")]
     calls = []
     for name, ar in ACTIONS.items():
         for combo in itertools.product(names_a, repeat=ar):
             calls.append((name, list(combo)))
     rng.shuffle(calls)
-    for name, args in calls[:2]:
-        if not allow_repeats and len(set(args)) < len(args):
-            continue
-        descrs.append({"route": "succ", "of": 0, "domain": DOMAIN, "problem": ptxt, "action": name, "args": args,
-                       "want": None, "kind": "route:succ"})
-        descrs.append({"route": "succ", "of": 3, "domain": DOMAIN, "problem": ptxt, "action": name, "args": args,
-                       "want": None, "kind": "route:succ-of-copy"})
-    return descrs
+    return calls[:k]
+
+
+def route_objects(rng):
+    objs = [("o%d" % i, rng.choice(["a", "b", "a"])) for i in range(rng.randint(1, 3))]
+    if rng.random() < 0.5:
+        objs.append(("u0", "c"))
+    return objs
+
+
+def route_group(rng, allow_repeats=False):
+    objs = route_objects(rng)
+    st = route_state(rng, objs, allow_repeats)
+    ptxt = problem_text(rng, objs, st)
+    return {"descrs": route_descrs(rng, objs, st, ptxt, allow_repeats), "ctx": {"domain": DOMAIN, "problem": ptxt}}
+
+
+# ----- process-level sequences: ordinary states, then unrelated library calls in the same process, then the same
+# ----- states again and new ones
+def noise_steps(rng, objs, repeats):
+    """library calls on OTHER texts (same domain object or a second domain that shares every name with the first but
+    declares other arities and another type tree); with repeats: fluents / calls with a repeated argument (D07 area --
+    the noise itself is not judged, only the ordinary states around it)"""
+    steps = []
+    for _ in range(rng.randint(1, 3)):
+        second = rng.random() < 0.25
+        dom, ps, fs = (DOMAIN_B, PRED_SIGS_B, FUNC_SIGS_B) if second else (DOMAIN, PRED_SIGS, FUNC_SIGS)
+        nobjs = list(objs) if rng.random() < 0.6 else [("n%d" % i, "a") for i in range(rng.randint(1, 3))]
+        if second:
+            nobjs = [(n, "a" if t != "c" else "c") for n, t in nobjs]
+        names_a = [n for n, t in nobjs if t in ("a", "b")]
+        st1 = route_state(rng, nobjs, repeats, ps, fs)
+        st2 = route_state(rng, nobjs, repeats, ps, fs)
+        if repeats:
+            # make sure a diagonal entry is there
+            f2 = [f for f, sig in fs.items() if len(sig) == 2][0]
+            o = rng.choice(names_a)
+            for st in (st1, st2):
+                if not any(f == f2 and a == [o, o] for f, a, _ in st["fluents"]):
+                    st["fluents"].append([f2, [o, o], fhex(rng.choice(ROUTE_VALUES))])
+        ptxt = problem_text(rng, nobjs, st1).replace("(:domain dom14)", "(:domain %s)" % ("dom14b" if second else "dom14"))
+        calls = []
+        for _ in range(rng.randint(1, 3)):
+            name = rng.choice(sorted(ACTIONS))
+            args = [rng.choice(names_a) for _ in range(ACTIONS[name])]
+            if len(set(args)) < len(args) and not repeats:
+                continue
+            calls.append([name, args])
+        kind = rng.choice(["trajectory", "trajectory", "state-text", "problem", "succ", "export"])
+        step = {"kind": kind, "domain": dom, "problem": ptxt if (kind not in ("trajectory", "state-text") or rng.random() < 0.6) else None}
+        if kind == "trajectory":
+            call = calls[0] if calls else ["tog", []]
+            step["text"] = "(%s\n(operator: (%s))\n%s\n)" % (render_state_text(rng, st1, ":init"), " ".join([call[0]] + call[1]),
+                                                            render_state_text(rng, st2))
+        elif kind == "state-text":
+            step["text"] = render_state_text(rng, st2)
+        elif kind in ("succ", "export"):
+            step["calls"] = calls or [["tog", []]]
+        steps.append(step)
+    return steps
+
+
+def sequence_input(rng, repeats):
+    objs = route_objects(rng)
+    st = route_state(rng, objs, False)
+    ptxt = problem_text(rng, objs, st)
+    calls = route_calls(rng, objs, k=1)
+    before = route_descrs(rng, objs, st, ptxt, False, base=0, calls=calls)
+    n = len(before)
+    # afterwards: the same state through every route once more (texts shuffled anew), copies and successors of OLD objects
+    after = route_descrs(rng, objs, st, problem_text(rng, objs, st), False, base=n, calls=calls)
+    olds = [i for i, d in enumerate(before) if d["route"] != "succ"]
+    for i in rng.sample(olds, min(2, len(olds))):
+        after.append({"route": "copy", "of": i, "want": before[i]["want"], "kind": "route:copy-of-old"})
+    for name, args in calls:
+        if len(set(args)) == len(args):
+            i = rng.choice([0, 1, 2])
+            after.append({"route": "succ", "of": i, "domain": DOMAIN, "problem": ptxt, "action": name, "args": args,
+                          "want": succ_want(st, name, args), "kind": "route:succ-of-old"})
+    return {"before": before, "noise": noise_steps(rng, objs, repeats), "after": after,
+            "ctx": {"domain": DOMAIN, "problem": ptxt}, "noise_repeats": repeats}
+
+
+def expand_sequence(seq, res):
+    """one sequence job -> the two groups it is judged as (states observed before / after the unrelated calls)"""
+    gb = {"descrs": seq["before"], "kind": "sequence-before", "ctx": seq.get("ctx"), "seq": seq, "phase": "before"}
+    ga = {"descrs": seq["before"] + seq["after"], "kind": "sequence-after", "ctx": seq.get("ctx"), "seq": seq, "phase": "after"}
+    return [(gb, res["before"]), (ga, res["after"])]
 
 
 def has_repeat(st):
@@ -349,12 +498,36 @@ def cobs_val(r, render):
 EMPTY_DUMP = {"init": False, "preds": [], "fluents": []}
 
 
-def csinfo(descr, info):
+def src_rep(descrs, i):
+    """INPUT-side classifier of finding D07: the description of state i, or of anything it is derived from, has a
+    ground fluent or an action call with a repeated argument"""
+    d = descrs[i]
+    if has_repeat(d.get("want")):
+        return True
+    if d.get("route") == "succ" and len(set(d["args"])) < len(d["args"]):
+        return True
+    if "of" in d:
+        return src_rep(descrs, d["of"])
+    if d.get("route") == "ctor":
+        return any(f.get("rep") for _, f in d["fluents"])
+    return False
+
+
+def crb(r):
+    if r is None:
+        return "None"
+    if "value" not in r:
+        return "(Some Raised)"
+    return "(Some (Returned (%s, %s)))" % (cbool(r["value"][0]), cstr(r["value"][1]))
+
+
+def csinfo(descrs, i, info):
+    descr = descrs[i]
     return ("{| si_dump := %s; si_want := %s; si_ser := %s; si_self_eq := %s; si_copy_eq := %s; si_copy_ser := %s; "
-            "si_indep := %s |}") % (
+            "si_indep := %s; si_src_rep := %s; si_rb_with := %s; si_rb_ded := %s |}") % (
         cmstate(info.get("dump", EMPTY_DUMP)), cwant(descr.get("want")), cobs_val(info.get("ser"), cstr),
         cobs_val(info.get("self_eq"), cbool), cobs_val(info.get("copy_eq"), cbool), cobs_val(info.get("copy_ser"), cstr),
-        cobs_val(info.get("indep"), cbool))
+        cobs_val(info.get("indep"), cbool), cbool(src_rep(descrs, i)), crb(info.get("rb_with")), crb(info.get("rb_ded")))
 
 
 def values_of(descrs, infos):
@@ -365,19 +538,29 @@ def values_of(descrs, infos):
                 vals.add(v)
         for _, f in info.get("dump", EMPTY_DUMP)["fluents"]:
             vals.add(f["val"])
-        for k in ("ser", "copy_ser"):
-            if info.get(k) and "value" in info[k]:
-                for t in info[k]["value"].replace("(", " ").replace(")", " ").split():
-                    texts.add(t)
+        found = [info[k]["value"] for k in ("ser", "copy_ser") if info.get(k) and "value" in info[k]]
+        found += [info[k]["value"][1] for k in ("rb_with", "rb_ded") if info.get(k) and "value" in info[k]]
+        for text in found:
+            for t in text.replace("(", " ").replace(")", " ").split():
+                texts.add(t)
     return vals, texts
 
 
-def cenv(descrs, infos, ff):
+def cctx(c):
+    if not c:
+        return "None"
+    v = c["vocab"]
+    sigs = lambda l: clist(["(%s, %s)" % (cstr(n), cpairs(sg)) for n, sg in l])  # noqa
+    return "(Some (vocab %s %s %s %s, %s))" % (cpairs(v["types"]), cpairs(v["consts"]), sigs(v["preds"]), sigs(v["funcs"]),
+                                              cpairs(c["objects"]))
+
+
+def cenv(descrs, infos, ff, ctx=None):
     vals, texts = values_of(descrs, infos)
     reprs = clist(["(%s, %s)" % (hexlit(h), cstr(ff["reprs"][h][0])) for h in sorted(vals)])
     nums = clist(["(%s, %s)" % (cstr(t), hexlit(ff["nums"][t])) for t in sorted(texts) if t in ff["nums"]])
-    return "{| e_repr := %s; e_nums := %s; e_states := %s |}" % (
-        reprs, nums, clist([csinfo(d, i) for d, i in zip(descrs, infos)]))
+    return "{| e_repr := %s; e_nums := %s; e_states := %s; e_ctx := %s |}" % (
+        reprs, nums, clist([csinfo(descrs, i, info) for i, info in enumerate(infos)]), cctx(ctx))
 
 
 def pair_char(r):
@@ -399,7 +582,7 @@ def build_groups(rng, tier):
     ex = exhaustive_group(tier)
     groups.append({"descrs": ex, "kind": "exhaustive"})
     # build-order permutations of the exhaustive universe, compared with the canonical builds
-    n_perm = 30 if tier == "quick" else 250
+    n_perm = 20 if tier == "quick" else 250
     for _ in range(n_perm):
         base = rng.choice(ex)["want"]
         ds = [dict(ctor_from_abstract(base), want=base, kind="exhaustive")]
@@ -408,13 +591,19 @@ def build_groups(rng, tier):
         other = rng.choice(ex)["want"]
         ds.append(permuted_variant(rng, other, rng.randint(0, 5)))
         groups.append({"descrs": ds, "kind": "build-order"})
-    for _ in range(50 if tier == "quick" else 450):
+    for _ in range(36 if tier == "quick" else 450):
         groups.append({"descrs": random_group(rng, big=rng.random() < 0.3), "kind": "random"})
-    for _ in range(32 if tier == "quick" else 250):
-        groups.append({"descrs": route_group(rng, allow_repeats=False), "kind": "routes"})
+    for _ in range(16 if tier == "quick" else 200):
+        groups.append(dict(route_group(rng, allow_repeats=False), kind="routes"))
     for _ in range(6 if tier == "quick" else 30):
-        groups.append({"descrs": route_group(rng, allow_repeats=True), "kind": "routes-with-repeated-arguments"})
+        groups.append(dict(route_group(rng, allow_repeats=True), kind="routes-with-repeated-arguments"))
     return groups
+
+
+def build_sequences(rng, tier):
+    """process-level sequences; most of them put repeated-argument texts (the D07 area) between the observations"""
+    n = 6 if tier == "quick" else 48
+    return [sequence_input(rng, repeats=(k % 6 != 5)) for k in range(n)]
 
 
 class LazyLit:
@@ -476,6 +665,11 @@ def strip(d):
     return {k: v for k, v in d.items() if k not in ("want", "kind")}
 
 
+def seq_job(seq):
+    return {"op": "c14.sequence", "before": [strip(d) for d in seq["before"]], "noise": seq["noise"],
+            "after": [strip(d) for d in seq["after"]], "ctx": seq.get("ctx")}
+
+
 def run(args):
     rep = Report(PROP, args.tier, args.seed)
     phases = {}
@@ -484,15 +678,54 @@ def run(args):
     phases["proofs"] = round(time.time() - t_, 1)
     t_ = time.time()
     rng = random.Random(args.seed * 7919 + 14)
+    seqs = []
     if args.replay:
         data = json.load(open(args.replay))
-        groups = [data["input"]["group"]]
+        g = data["input"]["group"]
+        if "seq" in g:
+            groups, seqs = [], [g["seq"]]
+        else:
+            groups = [g]
     else:
         groups = build_groups(rng, args.tier)
+        seqs = build_sequences(random.Random(args.seed * 7919 + 1414), args.tier)
     hashseed = args.seed % 5
-    jobs = [{"op": "c14.group", "states": [strip(d) for d in g["descrs"]], "pairs": all_pairs(len(g["descrs"]))}
-            for g in groups]
-    results = run_impl(jobs, hashseed=hashseed)
+    jobs = [{"op": "c14.group", "states": [strip(d) for d in g["descrs"]], "pairs": all_pairs(len(g["descrs"])),
+             "ctx": g.get("ctx")} for g in groups]
+    # Order inside a worker process is part of the input (process-level state of the library), so it is controlled:
+    # groups whose texts carry repeated arguments (the D07 area) never share a process with the ordinary groups, and
+    # every sequence (ordinary states / unrelated calls / the same states again) is one job in a process of its own.
+    # A replay of one group or of one sequence in a fresh process is therefore the same experiment.
+    apart = [i for i, g in enumerate(groups) if g["kind"] in ("witness", "routes-with-repeated-arguments")]
+    plain = [i for i in range(len(groups)) if i not in apart]
+    results = [None] * len(groups)
+    for idxs in (plain, apart):
+        for i, r in zip(idxs, run_impl([jobs[i] for i in idxs], hashseed=hashseed)):
+            results[i] = r
+    seq_results = []
+    from ..common import NCPU
+    for a in range(0, len(seqs), NCPU):
+        batch = [seq_job(q) for q in seqs[a:a + NCPU]]
+        seq_results += run_impl(batch, hashseed=hashseed, nproc=len(batch))
+    seq_groups, seq_group_results = [], []
+    noise_stats = {"steps": 0, "raised": 0, "by_kind": {}, "with_repeated_arguments": 0, "second_domain": 0}
+    for q, r in zip(seqs, seq_results):
+        if "before" not in r:
+            p = write_replay(PROP, "sequence_failed_%d" % len(seq_groups), {"kind": "correspondence", "why": "the sequence driver failed",
+                                                                          "input": {"group": {"seq": q}}, "result": r})
+            rep.violation(p, False)
+            continue
+        for st, nr in zip(q["noise"], r["noise"]):
+            noise_stats["steps"] += 1
+            noise_stats["raised"] += 0 if "value" in nr else 1
+            noise_stats["by_kind"][st["kind"]] = noise_stats["by_kind"].get(st["kind"], 0) + 1
+            noise_stats["second_domain"] += 1 if st["domain"] == DOMAIN_B else 0
+        noise_stats["with_repeated_arguments"] += 1 if q.get("noise_repeats") else 0
+        for g, res in expand_sequence(q, r):
+            seq_groups.append(g)
+            seq_group_results.append(res)
+    # the sequences are judged (and reported) first
+    groups, results = seq_groups + groups, seq_group_results + results
     vf = run_impl([{"op": "c14.value_facts"}], nproc=1)[0]
     # float facts for every value / numeral text met
     vals, texts = set(), set()
@@ -508,14 +741,22 @@ def run(args):
     lits, units, cases = [], [], []
     stats = {"groups": {}, "states_by_kind": {}, "pairs_equal": 0, "pairs_unequal": 0, "pairs_raised": 0,
              "pairs_same_abstract_state_different_build": 0, "states": 0, "indep_deep_false": 0,
-             "values": {"nan": 0, "neg_zero": 0, "inf": 0, "subnormal_or_huge": 0, "other": 0},
-             "states_with_repeated_fluent_argument": 0, "empty_states": 0}
+             "values": {"nan": 0, "neg_zero": 0, "inf": 0, "exponent_form_repr": 0, "subnormal_or_huge": 0, "other": 0},
+             "states_with_repeated_fluent_argument": 0, "empty_states": 0, "library_readback_observed": 0,
+             "library_readback_equal": 0, "successors_with_expected_value": 0, "build_raised": 0,
+             "sequence_noise": noise_stats}
     ROWS_PER_LIT = 24
     for gi, (g, r) in enumerate(zip(groups, results)):
         descrs, infos = g["descrs"], r["states"]
         n = len(descrs)
-        env = cenv(descrs, infos, ff)
+        env = cenv(descrs, infos, ff, r.get("ctx"))
         stats["groups"][g["kind"]] = stats["groups"].get(g["kind"], 0) + 1
+
+        def replay_group(idxs, g=g, descrs=descrs):
+            if "seq" in g:          # the order of the whole job matters: no shrinking
+                return {"kind": g["kind"], "seq": g["seq"], "phase": g["phase"]}, list(idxs)
+            sub, new = subgroup(descrs, idxs)
+            return {"descrs": sub, "kind": g["kind"], "ctx": g.get("ctx")}, new
         # per-state and per-pair bookkeeping (python side: classification + distribution only)
         state_cases, pair_cases = [], []
         for i, (d, info) in enumerate(zip(descrs, infos)):
@@ -523,22 +764,28 @@ def run(args):
             stats["states_by_kind"][k] = stats["states_by_kind"].get(k, 0) + 1
             stats["states"] += 1
             w = d.get("want")
-            rept = has_repeat(w) or any(len(set(vars_of(f["sig"], f["rep"]))) < len(vars_of(f["sig"], f["rep"]))
-                                        for _, f in info.get("dump", EMPTY_DUMP)["fluents"])
+            rept = src_rep(descrs, i)
             stats["states_with_repeated_fluent_argument"] += 1 if rept else 0
+            stats["build_raised"] += 1 if "build_raised" in info else 0
             if w is not None and not w["facts"] and not w["fluents"]:
                 stats["empty_states"] += 1
+            if w is not None and d.get("route") == "succ":
+                stats["successors_with_expected_value"] += 1
             if info.get("indep_deep", {}).get("value") is False:
                 stats["indep_deep_false"] += 1
+            for kk in ("rb_with", "rb_ded"):
+                if info.get(kk) is not None:
+                    stats["library_readback_observed"] += 1
+                    stats["library_readback_equal"] += 1 if info[kk].get("value", [False])[0] else 0
             for _, f in info.get("dump", EMPTY_DUMP)["fluents"]:
                 v = unhex(f["val"])
                 key = ("nan" if math.isnan(v) else "inf" if math.isinf(v) else "neg_zero" if (v == 0 and math.copysign(1, v) < 0)
-                       else "subnormal_or_huge" if (v != 0 and (abs(v) < 1e-300 or abs(v) > 1e300)) else "other")
+                       else "subnormal_or_huge" if (v != 0 and (abs(v) < 1e-300 or abs(v) > 1e300))
+                       else "exponent_form_repr" if "e" in repr(v) else "other")
                 stats["values"][key] += 1
-            sub, (si,) = subgroup(descrs, [i])
+            rg, (si,) = replay_group([i])
             state_cases.append({"lit": LazyLit(lambda env=env, i=i: "{| g_env := %s; g_cases := [CState %d] |}" % (env, i)),
-                                "input": {"group": {"descrs": sub, "kind": g["kind"]}, "state": si,
-                                          "implementation": info},
+                                "input": {"group": rg, "state": si, "implementation": info},
                                 "nontrivial": bool(info.get("dump", EMPTY_DUMP)["preds"] or info.get("dump", EMPTY_DUMP)["fluents"]),
                                 "witness_of": g.get("witness_of"), "klass": "D07" if rept else None})
         for (i, j), pr in zip(all_pairs(n), r["pairs"]):
@@ -549,12 +796,11 @@ def run(args):
             wi, wj = descrs[i].get("want"), descrs[j].get("want")
             if i != j and wi is not None and wj is not None and same_abstract(wi, wj):
                 stats["pairs_same_abstract_state_different_build"] += 1
-            rept = has_repeat(wi) or has_repeat(wj)
-            sub, (si, sj) = subgroup(descrs, [i, j])
+            rept = src_rep(descrs, i) or src_rep(descrs, j)
+            rg, (si, sj) = replay_group([i, j])
             pair_cases.append({"lit": LazyLit(lambda env=env, i=i, j=j, pr=pr: "{| g_env := %s; g_cases := [CPair %d %d %s] |}" % (
                                    env, i, j, cobs_val(pr, cbool))),
-                               "input": {"group": {"descrs": sub, "kind": g["kind"]}, "pair": [si, sj],
-                                         "implementation": pr},
+                               "input": {"group": rg, "pair": [si, sj], "implementation": pr},
                                "nontrivial": i != j, "witness_of": g.get("witness_of"), "klass": "D07" if rept else None})
         # literals: state cases + rows, split so that no literal carries more than ROWS_PER_LIT rows
         rows = ["CRow %d %s" % (i, cstr("".join(pair_char(r["pairs"][i * n + j]) for j in range(n)))) for i in range(n)]
